@@ -368,14 +368,21 @@ func ruleInflCoverJson(p *Prog, r *Report) {
 		r.Anchor(rule, "mxj.NewMapJson")
 	} else {
 		found := false
-		eachInstr(fn, func(b *ssa.BasicBlock, in ssa.Instruction) {
-			if c, ok := in.(ssa.CallInstruction); ok && isCallTo(c.Common(), "(*encoding/json.Decoder).UseNumber") {
-				bi := p.blockInfluence(fn, in)
-				if len(bi.hasGlobals(p, "mxj.JsonUseNumber")) == 0 {
-					found = true
-				}
+		// in NewMapJson itself or in the unexported helpers it decodes through
+		for f := range p.Reach(fn) {
+			if !p.InModule(f) || len(f.Blocks) == 0 || (f != fn && p.Exported(f)) {
+				continue
 			}
-		})
+			ff := f
+			eachInstr(ff, func(b *ssa.BasicBlock, in ssa.Instruction) {
+				if c, ok := in.(ssa.CallInstruction); ok && isCallTo(c.Common(), "(*encoding/json.Decoder).UseNumber") {
+					bi := p.blockInfluence(ff, in)
+					if len(bi.hasGlobals(p, "mxj.JsonUseNumber")) == 0 {
+						found = true
+					}
+				}
+			})
+		}
 		if found {
 			r.OK(rule, p.Name(fn), "decoder number mode depends on JsonUseNumber", p.Pos(fn.Pos()), "UseNumber() is called under the variable")
 		} else {
